@@ -9,7 +9,7 @@ from .common import info
 def run(ctx):
     RR.bounded_selection(ctx, "R06.a")
     RR.limit_provenance(ctx, "R06.a")
-    RR.search_chain_shape(ctx, "R06.a")
+    RR.search_chain_shape(ctx, "R06.a", parts=("order", "score", "filter", "comparator", "result-id", "branch"))
     RT.candidate_cap(ctx, "R06.b", minimum=10)
     RT.positivity_filter(ctx, "R06.b")
     RS.reset_before_read(ctx, "R06.c", floor=12)
@@ -17,7 +17,7 @@ def run(ctx):
     RT.only_store_add_feeds_index(ctx, "R06.d")
     RT.enumerate_indices(ctx, "R06.d")
     RR.per_record_purity(ctx, "R06.e")
-    RC20.buffer_rules(ctx, None, None, "R20.f")
+    RC20.buffer_rules(ctx, "R20.c", None, "R20.f")
     return info("R06.a: the bounded selection truncates to its limit field only directly after a sort, finishes with sort -> "
                 "truncate(limit) -> reverse before the first pop under the done flag, forwards (x, y) to the user comparator in "
                 "order; the limit is self.limit at every selection site; the search pipeline is ixs -> hit -> score -> "
